@@ -276,5 +276,101 @@ theorem r1Recover_signed {d k : Nat} {msg sig : Bytes} (hk0 : k ≠ 0) (hk : k <
     L.scSigRecover_sign_norm d k _ hk0 hk hd0 hd S.hx S.hr0 S.hs0]
   rfl
 
+/-- `hazmat::sign_prehashed` in closed form, without assuming that the x-coordinate of `k·G` is below `n` -/
+theorem rcSignPrehashed_eq' (d k z : Nat) (hk0 : k ≠ 0) (hk : k < E.n) :
+    rcSignPrehashed E d k z =
+      if (E.toXY (E.mulG k)).1 % E.n = 0 ∨ sVal E.n d k z ((E.toXY (E.mulG k)).1 % E.n) = 0 then none
+      else some ((E.toXY (E.mulG k)).1 % E.n, sVal E.n d k z ((E.toXY (E.mulG k)).1 % E.n), yOdd E (E.mulG k),
+        decide ((E.toXY (E.mulG k)).1 % E.n ≠ (E.toXY (E.mulG k)).1)) := by
+  have hz : E.isZero (E.mulG k) = false := L.isZero_false.mpr (L.mulG_ne_zero k hk0 hk)
+  unfold rcSignPrehashed
+  simp only [if_neg hk0, affX, hz, Bool.false_eq_true, if_false]
+  rfl
+
+/-- when the x-coordinate of `R = k·G` is not below `n`, no recovery id with `x = r` recovers the signer's key:
+the trial recovery of the RustCrypto wrappers ends in `unreachable!("Invalid signature generated")` -/
+theorem recover_reduced_ne (lowS : Bool) (d k z : Nat) (v : Bool) (hk0 : k ≠ 0) (hk : k < E.n)
+    (hx : E.n ≤ (E.toXY (E.mulG k)).1) (hr0 : (E.toXY (E.mulG k)).1 % E.n ≠ 0)
+    (hs0 : sVal E.n d k z ((E.toXY (E.mulG k)).1 % E.n) ≠ 0) :
+    rcRecover E lowS z ((E.toXY (E.mulG k)).1 % E.n) (sNorm E.n (sVal E.n d k z ((E.toXY (E.mulG k)).1 % E.n))) v
+      ≠ some (E.mulG d) := by
+  have := L.fact_prime
+  have : NeZero E.n := ⟨L.n_pos.ne'⟩
+  set r := (E.toXY (E.mulG k)).1 % E.n with hr
+  have hrlt : r < E.n := Nat.mod_lt _ L.n_pos
+  have hs'0 := sNorm_ne_zero hs0 (L.sVal_lt d k z r)
+  have hs'lt := sNorm_lt (L.sVal_lt d k z r)
+  have hlow := sNorm_low L.n_odd (L.sVal_lt d k z r)
+  have hrz : (r : ZMod E.n) ≠ 0 := cast_ne_zero_of_lt hr0 hrlt
+  have hkz : (k : ZMod E.n) ≠ 0 := cast_ne_zero_of_lt hk0 hk
+  have hsz : ((sVal E.n d k z r : Nat) : ZMod E.n) ≠ 0 := cast_ne_zero_of_lt hs0 (L.sVal_lt d k z r)
+  rw [L.rcRecover_eq lowS _ _ _ _ hr0 hrlt hs'0 hs'lt, hlow]
+  simp only [Bool.and_false, Bool.false_eq_true, if_false]
+  rw [L.scSigRecover_eq _ _ _ _ hr0 hrlt hs'0]
+  cases hl : E.liftX r v with
+  | none => simp
+  | some R'' =>
+    simp only
+    obtain ⟨hR0, hxR, _⟩ := L.lift_some _ _ _ hl
+    split
+    · simp
+    · intro h
+      have e : recPt E z r (sNorm E.n (sVal E.n d k z r)) R'' = E.mulG d := Option.some.inj h
+      -- s'•R'' = (z + r d)•g = s•R
+      have e1 : ((sNorm E.n (sVal E.n d k z r) : Nat) : ZMod E.n) • R'' =
+          ((sVal E.n d k z r : Nat) : ZMod E.n) • E.mulG k := by
+        unfold recPt at e
+        have e' := congrArg (fun P => (r : ZMod E.n) • P) e
+        simp only [smul_smul, mul_inv_cancel₀ hrz, one_smul] at e'
+        rw [L.mulG_eq d, smul_smul] at e'
+        rw [L.sVal_cast d k z r hk0 hk, L.mulG_eq k, smul_smul]
+        have : (k : ZMod E.n)⁻¹ * ((z : ZMod E.n) + (r : ZMod E.n) * d) * k = (z : ZMod E.n) + (r : ZMod E.n) * d := by
+          field_simp
+        rw [this, add_smul, ← e']
+        abel
+      -- hence R'' = ± R, so it has the same x-coordinate
+      have hxx : (E.toXY R'').1 = (E.toXY (E.mulG k)).1 := by
+        have hRk : E.mulG k ≠ 0 := L.mulG_ne_zero k hk0 hk
+        unfold sNorm at e1
+        split at e1
+        · rw [negN_cast, neg_smul, ← smul_neg] at e1
+          have h2 : -R'' = E.mulG k := by
+            have := congrArg (fun P => (((sVal E.n d k z r : Nat) : ZMod E.n))⁻¹ • P) e1
+            simpa only [smul_smul, inv_mul_cancel₀ hsz, one_smul] using this
+          have : R'' = -(E.mulG k) := by rw [← h2, neg_neg]
+          rw [this, (L.neg_xy _ hRk).1]
+        · have : R'' = E.mulG k := by
+            have := congrArg (fun P => (((sVal E.n d k z r : Nat) : ZMod E.n))⁻¹ • P) e1
+            simpa only [smul_smul, inv_mul_cancel₀ hsz, one_smul] using this
+          rw [this]
+      rw [hxR] at hxx
+      have := Nat.mod_lt (E.toXY (E.mulG k)).1 L.n_pos
+      omega
+/-- in the reduced-x case `k256::sign` panics (`SignFailed` or `unreachable!("Invalid signature generated")`) -/
+theorem k256Sign_reduced (d k : Nat) (msg : Bytes) (hk0 : k ≠ 0) (hk : k < E.n)
+    (hx : E.n ≤ (E.toXY (E.mulG k)).1) : ∃ e, k256Sign E d k msg = .error e := by
+  unfold k256Sign k256SignPrim
+  simp only
+  generalize msgScalar E.n msg = z
+  rw [L.rcSignPrehashed_eq' d k z hk0 hk]
+  by_cases hc : (E.toXY (E.mulG k)).1 % E.n = 0 ∨ sVal E.n d k z ((E.toXY (E.mulG k)).1 % E.n) = 0
+  · rw [if_pos hc]; exact ⟨_, rfl⟩
+  · rw [if_neg hc]
+    have hr0 : (E.toXY (E.mulG k)).1 % E.n ≠ 0 := fun e => hc (Or.inl e)
+    have hs0 : sVal E.n d k z ((E.toXY (E.mulG k)).1 % E.n) ≠ 0 := fun e => hc (Or.inr e)
+    have hn : (normalizeS E (sVal E.n d k z ((E.toXY (E.mulG k)).1 % E.n))).getD
+        (sVal E.n d k z ((E.toXY (E.mulG k)).1 % E.n))
+          = sNorm E.n (sVal E.n d k z ((E.toXY (E.mulG k)).1 % E.n)) := by
+      unfold normalizeS sNorm; split <;> rfl
+    have h1 := L.recover_reduced_ne true d k z false hk0 hk hx hr0 hs0
+    have h2 := L.recover_reduced_ne true d k z true hk0 hk hx hr0 hs0
+    simp only [hn]
+    have hf : findRecid E true (E.mulG d) z ((E.toXY (E.mulG k)).1 % E.n)
+        (sNorm E.n (sVal E.n d k z ((E.toXY (E.mulG k)).1 % E.n))) = .error .InvalidSignatureGenerated := by
+      unfold findRecid
+      simp [h1, h2]
+    rw [hf]
+    exact ⟨_, rfl⟩
+
 end CurveLaws
 end FuelVerif.Ecdsa
